@@ -191,6 +191,41 @@ func runC10(c *Ctx, n, t int, seed uint64) {
 							data []byte
 						}{tw, data})
 					}
+					nTyped := len(variants)
+					// the same claim in spellings a second JSON reader may treat differently from the first: the key in
+					// another case, twice with different values, or left out (then the typed request reads 0)
+					if g.Event != EvSigningStart {
+						var fields map[string]json.RawMessage
+						if json.Unmarshal(g.Data, &fields) == nil {
+							if _, ok := fields["ParticipantId"]; ok {
+								rest := func() string {
+									var parts []string
+									for _, k := range sortedKeys(fields) {
+										if k != "ParticipantId" {
+											kb, _ := json.Marshal(k)
+											parts = append(parts, string(kb)+":"+string(fields[k]))
+										}
+									}
+									return strings.Join(parts, ",")
+								}()
+								spell := []string{
+									fmt.Sprintf(`{"participantid":%d,%s}`, P, rest),
+									fmt.Sprintf(`{"PARTICIPANTID":%d,%s}`, P, rest),
+									fmt.Sprintf(`{"ParticipantId":%d,"participantId":%d,%s}`, S.Idx, P, rest),
+									fmt.Sprintf(`{"participantId":%d,"ParticipantId":%d,%s}`, P, S.Idx, rest),
+								}
+								if P == 0 {
+									spell = append(spell, "{"+rest+"}")
+								}
+								for _, sp := range spell {
+									variants = append(variants, struct {
+										ev   string
+										data []byte
+									}{g.Event, []byte(sp)})
+								}
+							}
+						}
+					}
 					for vi, va := range variants {
 						forged := world.SignMsg(S, g.DkgRoundID, va.ev, va.data, g.RecipientAddr)
 						if vi == 0 {
@@ -212,6 +247,20 @@ func runC10(c *Ctx, n, t int, seed uint64) {
 						before := participantEntries(nd, g.DkgRoundID, P)
 						err, diff, pan := applyAt(w, m, v, forged)
 						after := participantEntries(nd, g.DkgRoundID, P)
+						if vi >= nTyped && before != after {
+							// a spelling variant may legitimately be read as S's own contribution: then its effect on P's
+							// record must be exactly the effect of S contributing under its own id (control run)
+							var own map[string]json.RawMessage
+							_ = json.Unmarshal(g.Data, &own)
+							own["ParticipantId"] = json.RawMessage(fmt.Sprint(S.Idx))
+							ownBz, _ := json.Marshal(own)
+							nd.Mem.Restore(m.Snaps[v])
+							_, _, _ = applyAt(w, m, v, world.SignMsg(S, g.DkgRoundID, va.ev, ownBz, g.RecipientAddr))
+							if participantEntries(nd, g.DkgRoundID, P) == after {
+								after = before
+								c.Add("spelling_variants_read_as_the_senders_own_contribution", 1)
+							}
+						}
 						c.Eval(1)
 						c.Distinct(fmt.Sprintf("impersonation|%s|%s", va.ev, stateName))
 						if pan != nil {
